@@ -588,6 +588,17 @@ class C03Betting(Monitor):
         super().__init__()
         self.round = None
 
+    # -- where the rules' parameters come from (C11 overrides these with the documented table) ---
+    def structure_of(self, sess, s):
+        return {impl.BettingStructure.FIXED_LIMIT: 'FL', impl.BettingStructure.POT_LIMIT: 'PL',
+                impl.BettingStructure.NO_LIMIT: 'NL'}[s.betting_structure]
+
+    def cap_of(self, sess, s, st):
+        return st.max_completion_betting_or_raising_count
+
+    def minbet_of(self, sess, s, st):
+        return st.min_completion_betting_or_raising_amount
+
     # -- history bookkeeping ------------------------------------------------------------
     def _begin_round(self, s: State):
         n = s.player_count
@@ -694,19 +705,21 @@ class C03Betting(Monitor):
             if not allin:
                 break
             trailing.append(inc)
-        cap = st.max_completion_betting_or_raising_count
+        cap = self.cap_of(sess, s, st)
         short_rule = bool(trailing) and sum(trailing) < max_inc and p in r['acted']
         covered = s.stacks[p] <= max_bet - s.bets[p]
         nobody = not any(i != p and s.stacks[i] + s.bets[i] > max_bet for i in live)
         exp_raise = not (cap is not None and r['count'] >= cap) and not short_rule and not covered and not nobody
         es = sorted(s.bets[j] + s.stacks[j] for j in live)
         effp = min(s.stacks[p], max(0, es[-2] - s.bets[p]))
-        base = max(max_inc, st.min_completion_betting_or_raising_amount) + (0 if r['completing'] else max_bet)
+        street_min = self.minbet_of(sess, s, st)
+        base = max(max_inc, street_min) + (0 if r['completing'] else max_bet)
         exp_min = min(effp + s.bets[p], base)
         total_pot = s.total_pot_amount
-        if s.betting_structure == impl.BettingStructure.FIXED_LIMIT:
+        structure = self.structure_of(sess, s)
+        if structure == 'FL':
             exp_max = exp_min
-        elif s.betting_structure == impl.BettingStructure.POT_LIMIT:
+        elif structure == 'PL':
             exp_max = min(s.stacks[p] + s.bets[p], max(exp_min, 2 * max_bet - s.bets[p] + total_pot))
         else:
             exp_max = s.stacks[p] + s.bets[p]
@@ -721,9 +734,9 @@ class C03Betting(Monitor):
             mn = s.min_completion_betting_or_raising_to_amount
             mx = s.max_completion_betting_or_raising_to_amount
             if (mn, mx) != (exp_min, exp_max):
-                self.report('amounts', f'amounts:{s.betting_structure.name}',
+                self.report('amounts', f'amounts:{structure}',
                             f'min/max raise-to {mn}/{mx}, rules {exp_min}/{exp_max} (bets {s.bets} stacks {s.stacks} '
-                            f'largest raise {max_inc} street min {st.min_completion_betting_or_raising_amount})')
+                            f'largest raise {max_inc} street min {street_min}, structure {structure}, cap {cap})')
             else:
                 for x in (exp_min - 1, exp_min, exp_max, exp_max + 1, (exp_min + exp_max) // 2):
                     want = exp_min <= x <= exp_max
